@@ -116,6 +116,11 @@ def run(pid, tier):
         wv, wsteps, wscen = large_plan_walk(tier)
         violations = list(violations) + wv
         walk = {"large_scenarios_walked": wscen, "steps": wsteps}
+    # the environment OBJECT as a state machine (mc/apiseq.py): all two-episode route pairs and all one-perturbation
+    # programs over the public API on the small API scenarios, every result compared with the pristine state graph
+    from . import apiseq
+    api_cov, api_viol = apiseq.check_part(pid, tier)
+    violations = list(violations) + api_viol
     concrete = [v for v in violations if v["property"] == pid]
     if errors and not concrete:
         raise HarnessError("; ".join(errors[:3]))
@@ -148,6 +153,7 @@ def run(pid, tier):
         "env_object_pass": extra,
         "generative_transitions": agg["transitions"],
         "plan_walk_on_large_generated_scenarios": walk,
+        "api_sequence_exploration": api_cov,
         "of_which_through_parameter_vectors": agg.get("param_transitions", 0),
         "bound": "complete reachable state graph of every family scenario (<= 8 hosts); for the 16-38 host scenarios listed under "
                  "path_bounded_scenarios: every state on the reference plan x every action x both draws (deviation bound 1 from "
@@ -157,6 +163,9 @@ def run(pid, tier):
 
 
 def replay(pid, rec):
+    if rec.get("engine") == "apiseq":
+        from . import apiseq
+        return apiseq.replay(rec)
     if rec.get("engine") == "plan_walk":
         v, _, _ = large_plan_walk("quick")
         return [x for x in v if x["generator"] == rec["generator"]]
